@@ -512,6 +512,12 @@ pub fn check(prop: &dyn Property, tier: Tier, out: &Stdio) -> i32 {
         let _ = write_evidence(prop, tier, seed, &br, 0);
         return 2;
     }
+    if let Some(n) = br.acc.counters.get("note.discrepancy_attributed_to_simplification") {
+        out.say(&format!(
+            "NOTE: {n} discrepancies disappeared when the system was not simplified first; they are attributed to system simplification (C01/C11, not claimed) and are not violations of {}",
+            prop.id()
+        ));
+    }
     for (k, what) in &br.acc.known_hits {
         out.say(&format!("KNOWN-FINDING: property={} {} [{}]", prop.id(), what, k));
     }
